@@ -41,11 +41,13 @@ class ExprMixin:
                 if name in fr.vars:
                     v = fr.vars[name]
                     if v is None:
+                        st.emit("unbound_local", [VStr(name)])
                         return [self.raise_new(st, "UnboundLocalError")]
                     return [self.val(st, v)]
                 if name in getattr(fr, "local_names", ()):
                     if fr is f:
                         st.notes.append(f"unbound local {name}")
+                        st.emit("unbound_local", [VStr(name)])
                         return [self.raise_new(st, "UnboundLocalError")]
                 fr = st.frames.get(fr.parent) if fr.parent else None
         return self.lookup_global(f.module, name, st)
@@ -286,6 +288,12 @@ class ExprMixin:
         return out
 
     def ev_List(self, node, st):
+        if not node.elts and not self.spec:
+            HL = getattr(self.cur_contract, "heap_lists", None)
+            if HL is not None:
+                l = st.new_obj(HL.cls, HL)
+                st.lst_set(l, z3.Empty(z3.SeqSort(HL.elem.comps[0])))
+                return [self.val(st, l)]
         if any(isinstance(e, ast.Starred) for e in node.elts):
             return self._ev_display_starred(node, st, tuple_=False)
         out = []
@@ -1023,6 +1031,26 @@ class ExprMixin:
         """[f(x) for x in <abstract collection> if c(x)]: the result is an
         abstract collection described by quantified membership facts; the
         element expression must be pure (field reads)."""
+        if isinstance(it, VObj):
+            # opaque iterable: the result is an opaque object determined by the source (element expression evaluated
+            # once on an opaque item to make sure it is pure)
+            s2 = st.clone()
+            was = self.spec
+            self.spec = True
+            try:
+                for o in self.assign_target(gen.target, VObj(fresh_const("item", ty.IntS)), s2):
+                    if o[0] == "exc":
+                        raise EngineError("comprehension target raised")
+                if kind == "dict":
+                    self._one(self.ev(node.key, s2))
+                    self._one(self.ev(node.value, s2))
+                else:
+                    self._one(self.ev(node.elt, s2))
+            finally:
+                self.spec = was
+            f = z3.Function(f"comp_over!{node.lineno}_{node.col_offset}", ty.IntS, ty.IntS)
+            self.abstractions.add("a comprehension over an opaque iterable is an opaque object (a function of the iterable)")
+            return [("val", st, VObj(f(it.t)))]
         if not isinstance(it, VAbs):
             it2 = self.as_abs(it, st)
             if it2 is None:
